@@ -120,15 +120,25 @@ type TxCase struct {
 	Resp string      `json:"resp,omitempty"` // text/plain response body
 }
 
-// CtlActs: the ctl writes the markers produce, in rule order, as (index, value, inc).
+// CtlActs: the ctl writes the markers produce, in rule order. A marker sent n times gives the header n
+// values, the rule matches n times and its non-disruptive actions (the ctl) run once PER MATCH: a ctl
+// that appends (ruleRemoveById=<range> -> ruleRemoveByIDRanges) is therefore listed n times; the
+// ones that add to a set (ruleRemoveById=<id> -> a map, auditLogParts=+E -> a part already present is
+// not added again) and the plain assignments are idempotent and listed once.
 func (c TxCase) CtlActs() []CtlSpec {
 	var out []CtlSpec
 	for _, sp := range Ctls {
-		for _, n := range c.Ctl {
-			if n == sp.Name {
-				out = append(out, sp)
-				break
+		n := 0
+		for _, name := range c.Ctl {
+			if name == sp.Name {
+				n++
 			}
+		}
+		if n > 1 && !(sp.Inc && sp.Name == "rm-range") {
+			n = 1
+		}
+		for i := 0; i < n; i++ {
+			out = append(out, sp)
 		}
 	}
 	return out
